@@ -211,7 +211,7 @@ class Codec:
             logging.error(f"*** BodyLength missing or not 2nd field *** [{tag}]: {msg}")
             assert silent, "2nd tag must be BodyLength"
             return (None, frame_end, None)
-        elif not (value.isascii() and value.isdigit()):
+        elif not (value.isascii() and value.isdigit() and len(value) < 10):
             logging.error(f"*** BodyLength is not a number *** [{value}]: {msg}")
             assert silent, "BodyLength must be a number"
             return (None, frame_end, None)
